@@ -281,15 +281,27 @@ func (c *Ctx) rulesC15() {
 				if !isKill {
 					continue
 				}
+				fErrs := c.field(pn, "workerInfo", "errs")
 				for _, g := range guardsOf(b) {
 					cv, neg := stripNot(g.Cond)
 					if bo, ok := cv.(*ssa.BinOp); ok && (g.Pol != neg) && bo.Op == token.GTR && loadOfField(bo.Y) == fKill {
-						good = true
+						// the counted quantity is the long-lived error cache (workerInfo.errs), possibly through a thin helper
+						cnt := bo.X
+						if call, ok := cnt.(*ssa.Call); ok {
+							if cal := call.Call.StaticCallee(); cal != nil && cal.Blocks != nil && inModule(cal.Pkg.Pkg) {
+								for _, r := range returnsOf(cal) {
+									cnt = retVals(r)[0]
+								}
+							}
+						}
+						if call, ok := cnt.(*ssa.Call); ok && calleeName(&call.Call) == "ItemCount" && len(call.Call.Args) >= 1 && mentionsField(call.Call.Args[0], fErrs) {
+							good = true
+						}
 					}
 				}
 			}
 		}
-		c.check(good, "C15.kill", "ErrWorkerState requests a kill above WorkerErrKill", f.Pos(), "Add1(KillingWorker) must be controlled by errs.ItemCount() > WorkerErrKill")
+		c.check(good, "C15.kill", "ErrWorkerState requests a kill above WorkerErrKill", f.Pos(), "Add1(KillingWorker) must be controlled by w.errs.ItemCount() > WorkerErrKill (the long-lived error cache, not the short-lived recent one)")
 	}
 
 	// C15.grp
